@@ -498,6 +498,9 @@ class Run(RunBase):
             objs = [self._find(kind, i) for i in ids]
             if any(o is None for o in objs):
                 raise HarnessError(f"model says {kind} {ids} contained but the scenario cannot find it")
+            if op.get("as_copy"):
+                objs = [copy.deepcopy(o) for o in objs]  # equal objects, not the contained ones
+                self.probe("removed-by-an-equal-copy")
             arg = objs if form == "list" else objs[0]
             if kind == "lanelet":
                 ref = bool(op.get("ref", True))
@@ -727,7 +730,7 @@ def _remover(rng, run):
                     and i not in chosen]
             if free:
                 chosen[rng.randrange(len(chosen))] = rng.pick(free)
-        op = {"op": "remove", "kind": kind, "ids": chosen, "form": form}
+        op = {"op": "remove", "kind": kind, "ids": chosen, "form": form, "as_copy": rng.chance(0.2)}
         if kind == "lanelet":
             op["ref"] = rng.chance(0.7)
         r = rng.random()
@@ -800,7 +803,7 @@ class C09(Property):
                        "restart-deepcopy", "remove-non-contained-obstacle", "gen-between-gen-and-add", "erase-network",
                        "restart-file", "object-with-internally-repeated-id", "replace-with-internally-repeated-id", "lanelet-with-reference-to-foreign-id-removed",
                        "list-removal-interrupted", "caller-edits-returned-lists",
-                       "obstacles-assigned-to-lanelets"]
+                       "obstacles-assigned-to-lanelets", "removed-by-an-equal-copy"]
     assumptions = [
         "interleaving granularity is one public call (the library has no threads)",
         "list-form adds are sequential adds: the accepted prefix before a refused element stays (documented relaxation)",
